@@ -86,3 +86,22 @@ def built_state(sp, streams, kind):
     if len(parts) < 2:
         parts.append(S.build(sp))
     return hg.Fraction.build(parts[0], parts[0] + parts[1])
+
+
+ED_KINDS = ("Bin", "CentrallyBin", "IrregularlyBin", "Stack", "Index", "Branch")
+
+
+def ed_variant(h, seq):
+    """The state of h (a filled Bin / CentrallyBin / IrregularlyBin / Stack / Index / Branch) built again with the public
+    "past tense" constructor ed() from copies of its parts, the sequences handed over as `seq` (tuple or list; pairs
+    as tuples or lists likewise) - every one of them a form the constructors' own type checks accept."""
+    hg = env.hg()
+    k = probes.base_kind(h)
+    cp = lambda x: x.copy()  # noqa: E731
+    if k == "Bin":
+        return hg.Bin.ed(h.low, h.high, h.entries, seq(cp(v) for v in h.values), cp(h.underflow), cp(h.overflow), cp(h.nanflow))
+    if k in ("CentrallyBin", "IrregularlyBin", "Stack"):
+        return getattr(hg, k).ed(h.entries, seq(seq((c, cp(v))) for c, v in h.bins), cp(h.nanflow))
+    if k in ("Index", "Branch"):
+        return getattr(hg, k).ed(h.entries, *[cp(v) for v in h.values])
+    raise ValueError(k)
